@@ -23,6 +23,10 @@ def main():
     except Inconclusive as e:
         log(f"WARNING: {e}")
         ok = False
+    r = subprocess.run(["cc", "-shared", "-fPIC", "-O1", "-o", os.path.join(WORK, "faultshim.so"),
+                        os.path.join(os.path.dirname(WORK), "faultshim", "faultshim.c"), "-ldl"], capture_output=True, text=True)
+    log("fault injector: " + ("built" if r.returncode == 0 else "FAILED " + r.stderr[-200:]))
+    ok = ok and r.returncode == 0
     for tool in (["python3-vt", "-c", "import z3, cvc5; print('z3', z3.get_version_string(), 'cvc5', cvc5.__version__)"],
                  ["cvc5", "--version"], ["/usr/bin/z3", "--version"]):
         r = subprocess.run(tool, capture_output=True, text=True)
